@@ -71,4 +71,15 @@ CLAIMS["C05"] = dict(
           "tournament induction for k>=5, iterator validity of unguarded variants (sentinel contract)."),
 )
 
+CLAIMS["C13"] = dict(
+    level="other",
+    technique="static analysis: comparison-site decision tables with operand roles from index-variable provenance, evaluation of the extracted index arithmetic, coupled-update / reset / field-completeness rules over the instantiated AST and CFG",
+    text=("HEAP-DECISION (12 sift/heapify functions of both d-ary heaps: smaller child selected, sink iff child<value, rise iff value<parent, ties free), "
+          "INDEX-INVERSE (parent(left(k)+j)==k), HANDLE-COUPLED / HANDLE-RESET / HANDLE-GROW for the addressable heap's handle table (found the build_heap defect, fixed), "
+          "RADIX-COUPLED (every bucket insertion/emptying keeps filled_, mins_ and size_ in step), CLEAR-COMPLETE (clear() resets every mutable state field). "
+          "Necessary conditions of top()/membership correctness on every path of every mutator."),
+    note=(TRUST + "Not decided: heap order over histories (induction argued from the local decisions), radix bucket index arithmetic (BucketComputation), "
+          "monotonicity precondition of the radix heap. IntegerRank's sign-bit table is enforced by the library's own static_asserts (a broken table does not compile)."),
+)
+
 NOT_APPLICABLE = {}
